@@ -228,7 +228,22 @@ func (ex *Explorer) query(extra ...*Term) (SatResult, *Model) {
 	if c, ok := ex.qcache[key]; ok {
 		ex.Stats.CacheHits++
 		if c.m != nil {
-			return c.res, c.m.Clone()
+			// the cached model may stem from another path: its concrete choices are replaced by
+			// the current path's (as queryUncached does), else a counterexample replays elsewhere
+			mc := c.m.Clone()
+			for k := range mc.Vars {
+				if strings.HasPrefix(k, "choice:") {
+					delete(mc.Vars, k)
+				}
+			}
+			if ex.model != nil {
+				for k, v := range ex.model.Vars {
+					if strings.HasPrefix(k, "choice:") {
+						mc.Vars[k] = v
+					}
+				}
+			}
+			return c.res, mc
 		}
 		return c.res, nil
 	}
